@@ -254,6 +254,31 @@ def extract():
         direction[phrase] = tr._proposition.get_propositions()[0].type.name
     T['direction'] = direction
 
+    # cardinality phrases: which bound(s) each QUANTITY_OPERATOR sets, and the order of 'between n and m'
+    class _Meta:
+        line = 1
+    qb = {}
+    for m in QUANTITY_OPERATOR:
+        tr = CNLTransformer()
+        f = tr.single_quantity_cardinality
+        getattr(f, 'base_func', f)(_Meta(), [m, '7'])
+        c = tr._proposition.get_cardinality()
+        lo, hi = (c.lower_bound, c.upper_bound) if c is not None else (None, None)
+        if lo not in (None, '7') or hi not in (None, '7'):
+            raise ExtractionError(f'single_quantity_cardinality({m.name}, 7) gives bounds ({lo}, {hi})')
+        qb[m.name] = [lo is not None, hi is not None]
+    T['quantity_bounds'] = qb
+    tr = CNLTransformer()
+    f = tr.range_quantity_cardinality
+    getattr(f, 'base_func', f)(_Meta(), ['3', '8'])
+    c = tr._proposition.get_cardinality()
+    if (c.lower_bound, c.upper_bound) == ('3', '8'):
+        T['range_bounds_in_order'] = True
+    elif (c.lower_bound, c.upper_bound) == ('8', '3'):
+        T['range_bounds_in_order'] = False
+    else:
+        raise ExtractionError(f'range_quantity_cardinality(3, 8) gives bounds ({c.lower_bound}, {c.upper_bound})')
+
     T['operators_negation'] = {k.name: v.name for k, v in operators_negation.items()}
     T['asp_symbols'] = {k.name: v for k, v in ASPOperation.operators.items()}
     T['tel_symbols'] = {k.name: v for k, v in ASPTemporalOperation.asp_temporal_operators.items()}
@@ -338,6 +363,13 @@ def render_lean(T) -> str:
     table('directionPhrases', T['direction'], 'PrefType', lambda v: '.' + v)
     table('entityPrefixFlags', T['entity_prefix_flags'], 'List String',
           lambda v: '[' + ', '.join(lstr(x) for x in v) + ']')
+    A('def quantityBounds : QOp → Bool × Bool')
+    for n, _ in T['enums']['QUANTITY_OPERATOR']:
+        lo, hi = T['quantity_bounds'][n]
+        A(f'  | .{n} => ({str(lo).lower()}, {str(hi).lower()})')
+    A('')
+    A(f'def rangeBoundsInOrder : Bool := {str(T["range_bounds_in_order"]).lower()}')
+    A('')
     A(f'def directionDefault : PrefType := .{T["direction_default"]}')
     A(f'def priorityDefault : Nat := {T["priority_default"]}')
     A('')
